@@ -1,36 +1,25 @@
-(* C17 - fff_onesample_permute_signs: for integer magics below 2^32 the flip
-   flags are the binary digits of the magic (bijection [0,2^n) <-> patterns for
-   n <= 32); at and above 2^32 the (int) cast inside FFF_FLOOR overflows and the
-   enumeration stops being injective (refuted clause, with witness). *)
-From Coq Require Import List Bool ZArith NArith QArith Qround Lia.
+(* C17 - fff_onesample_permute_signs (floor on doubles, fix 6262c59):
+   for EVERY integer magic the flip flags are its binary digits (two's
+   complement digits when negative), hence a bijection [0,2^n) <-> sign
+   patterns for every n; all of [0,2^n) are exactly representable doubles
+   for n <= 53.  For an arbitrary rational magic the first flag says whether
+   magic/2 is an integer and the rest are the digits of floor(magic/2). *)
+From Coq Require Import List Bool ZArith NArith QArith Qround Lqa Lia.
 From NV.C17 Require Import Model.
 Import ListNotations.
 Close Scope Q_scope.
 Local Open Scope Z_scope.
 
-Definition TWO32 : Z := 4294967296.
-
 Lemma half_Q : forall z, (inject_Z z / 2)%Q = (Qmake (z * 1) 2).
 Proof. reflexivity. Qed.
 
-Lemma floor_half : forall z, 0 <= z < TWO32 -> fff_floor (inject_Z z / 2) = z / 2.
-Proof.
-  intros z [H0 H1]. unfold TWO32 in H1. rewrite half_Q. unfold fff_floor.
-  destruct (Qlt_le_dec 0 (Qmake (z * 1) 2)) as [P|NP].
-  - unfold cast_int, trunc0. cbn [Qnum Qden]. rewrite Z.mul_1_r.
-    rewrite Z.quot_div_nonneg by lia.
-    assert (R : ((INT_MIN <=? z / 2) && (z / 2 <? INT_MAX1))%bool = true).
-    { apply andb_true_intro. unfold INT_MIN, INT_MAX1.
-      change (2 ^ 31) with 2147483648.
-      split; [apply Z.leb_le|apply Z.ltb_lt]; Z.div_mod_to_equations; lia. }
-    rewrite R. reflexivity.
-  - unfold Qle in NP. cbn [Qnum Qden] in NP. assert (z = 0) by lia. subst z. reflexivity.
-Qed.
+Lemma floor_half : forall z, Qfloor (inject_Z z / 2) = z / 2.
+Proof. intros z. rewrite half_Q. unfold Qfloor. rewrite Z.mul_1_r. reflexivity. Qed.
 
-Lemma frac_half : forall z, 0 <= z ->
+Lemma frac_half : forall z,
   (if Qlt_le_dec 0 (inject_Z z / 2 - inject_Z (z / 2)) then true else false) = Z.odd z.
 Proof.
-  intros z H0. rewrite half_Q.
+  intros z. rewrite half_Q.
   assert (D := Z.div2_odd z). rewrite Z.div2_div in D.
   destruct (Qlt_le_dec 0 ((Qmake (z * 1) 2) - inject_Z (z / 2))) as [P|NP].
   - unfold Qlt, Qminus, Qplus, Qopp, inject_Z in P. cbn [Qnum Qden] in P.
@@ -48,13 +37,27 @@ Proof.
   rewrite Z.div2_bits by lia. f_equal. lia.
 Qed.
 
-Lemma sign_flags_bits : forall n z, 0 <= z < TWO32 ->
-  sign_flags n (inject_Z z) = bit_flags n z.
+(* every integer magic, of either sign and any size *)
+Lemma sign_flags_bits : forall n z, sign_flags n (inject_Z z) = bit_flags n z.
 Proof.
-  induction n as [|n IH]; intros z H; [reflexivity|].
+  induction n as [|n IH]; intros z; [reflexivity|].
   rewrite bit_flags_S. cbn [sign_flags].
-  rewrite floor_half by exact H. rewrite frac_half by lia.
-  f_equal. apply IH. unfold TWO32 in *. Z.div_mod_to_equations. lia.
+  rewrite floor_half, frac_half. f_equal. apply IH.
+Qed.
+
+(* arbitrary rational magic: one step, then integer digits *)
+Lemma sign_flags_any : forall n (m : Q),
+  sign_flags (S n) m
+  = (if Qeq_bool (m / 2) (inject_Z (Qfloor (m / 2))) then false else true)
+      :: bit_flags n (Qfloor (m / 2)).
+Proof.
+  intros n m. cbn [sign_flags]. rewrite sign_flags_bits. f_equal.
+  assert (L := Qfloor_le (m / 2)%Q).
+  destruct (Qlt_le_dec 0 (m / 2 - inject_Z (Qfloor (m / 2)))) as [P|NP].
+  - destruct (Qeq_bool (m / 2) (inject_Z (Qfloor (m / 2)))) eqn:E; [|reflexivity].
+    apply Qeq_bool_eq in E. exfalso. lra.
+  - destruct (Qeq_bool (m / 2) (inject_Z (Qfloor (m / 2)))) eqn:E; [reflexivity|].
+    apply Qeq_bool_neq in E. exfalso. apply E. lra.
 Qed.
 
 Lemma bit_flags_injective : forall n z1 z2, 0 <= z1 < 2 ^ Z.of_nat n -> 0 <= z2 < 2 ^ Z.of_nat n ->
@@ -83,32 +86,50 @@ Proof.
         destruct b; cbn [Z.b2z]; Z.div_mod_to_equations; lia.
 Qed.
 
-Lemma pow_le_two32 : forall n, (n <= 32)%nat -> 2 ^ Z.of_nat n <= TWO32.
-Proof.
-  intros n H. unfold TWO32. change 4294967296 with (2 ^ 32).
-  apply Z.pow_le_mono_r; lia.
-Qed.
-
 (* ---------------------------------------------------------------- statements *)
-Lemma sign_flags_injective : forall n z1 z2, (n <= 32)%nat ->
+Lemma sign_flags_injective : forall n z1 z2,
   0 <= z1 < 2 ^ Z.of_nat n -> 0 <= z2 < 2 ^ Z.of_nat n ->
   sign_flags n (inject_Z z1) = sign_flags n (inject_Z z2) -> z1 = z2.
 Proof.
-  intros n z1 z2 Hn H1 H2 E. assert (P := pow_le_two32 n Hn).
-  rewrite !sign_flags_bits in E by lia. eapply bit_flags_injective; eauto.
+  intros n z1 z2 H1 H2 E. rewrite !sign_flags_bits in E. eapply bit_flags_injective; eauto.
 Qed.
 
-Lemma sign_flags_surjective : forall fl, (length fl <= 32)%nat ->
+Lemma sign_flags_surjective : forall fl,
   exists z, 0 <= z < 2 ^ Z.of_nat (length fl) /\ sign_flags (length fl) (inject_Z z) = fl.
 Proof.
-  intros fl Hn. destruct (bit_flags_surjective fl) as [z [Hz E]].
-  exists z. split; [exact Hz|]. assert (P := pow_le_two32 _ Hn).
-  rewrite sign_flags_bits by lia. exact E.
+  intros fl. destruct (bit_flags_surjective fl) as [z [Hz E]].
+  exists z. split; [exact Hz|]. rewrite sign_flags_bits. exact E.
 Qed.
+
+(* the magics of [0, 2^n) are exactly representable doubles up to n = 53 *)
+Lemma range_double_exact : forall n z, (n <= 53)%nat -> 0 <= z < 2 ^ Z.of_nat n -> double_exact_int z.
+Proof.
+  intros n z Hn Hz. unfold double_exact_int.
+  assert (P : 2 ^ Z.of_nat n <= 2 ^ 53) by (apply Z.pow_le_mono_r; lia).
+  rewrite Z.abs_eq by lia. lia.
+Qed.
+
+Lemma sign_flags_bijective_53 : forall n, (n <= 53)%nat ->
+  (forall z, 0 <= z < 2 ^ Z.of_nat n -> double_exact_int z) /\
+  (forall z1 z2, 0 <= z1 < 2 ^ Z.of_nat n -> 0 <= z2 < 2 ^ Z.of_nat n ->
+     sign_flags n (inject_Z z1) = sign_flags n (inject_Z z2) -> z1 = z2) /\
+  (forall fl, length fl = n ->
+     exists z, 0 <= z < 2 ^ Z.of_nat n /\ double_exact_int z /\ sign_flags n (inject_Z z) = fl).
+Proof.
+  intros n Hn. split; [|split].
+  - intros z Hz. eapply range_double_exact; eauto.
+  - apply sign_flags_injective.
+  - intros fl L. destruct (sign_flags_surjective fl) as [z [Hz E]]. rewrite L in *.
+    exists z. split; [exact Hz|]. split; [eapply range_double_exact; eauto|exact E].
+Qed.
+
+(* beyond 2^53 not every integer is a double: 2^53 + 1 is the first gap *)
+Lemma double_gap : ~ double_exact_int (2 ^ 53 + 1).
+Proof. unfold double_exact_int. rewrite Z.abs_eq by lia. lia. Qed.
 
 Lemma sign_flags_zero : forall n, sign_flags n (inject_Z 0) = repeat false n.
 Proof.
-  intros n. rewrite sign_flags_bits by (unfold TWO32; lia).
+  intros n. rewrite sign_flags_bits.
   unfold bit_flags. generalize 0%nat. induction n as [|n IH]; intros s; [reflexivity|].
   cbn [seq map repeat]. rewrite Z.testbit_0_l, IH. reflexivity.
 Qed.
@@ -134,9 +155,9 @@ Lemma permute_signs_pm : forall x magic,
   Forall2 (fun a b => b = a \/ b = Qopp a) x (fff_onesample_permute_signs x magic).
 Proof. intros. apply apply_flags_pm. apply sign_flags_length. Qed.
 
-(* the defect: 33 subjects, magics 2^32 and 2^32+2 give one and the same pattern
-   (and flip subject 0 although both magics are even) *)
-Lemma sign_flags_33_collision :
-  sign_flags 33 (inject_Z 4294967296) = sign_flags 33 (inject_Z 4294967298)
-  /\ nth 0 (sign_flags 33 (inject_Z 4294967296)) false = true.
-Proof. split; vm_compute; reflexivity. Qed.
+(* all-ones magic -1 flips everybody; a non-integer magic always flips subject 0 *)
+Lemma sign_flags_examples :
+  sign_flags 4 (inject_Z (-1)) = [true; true; true; true] /\
+  sign_flags 4 (Qmake 5 2) = [true; true; false; false] /\
+  sign_flags 34 (inject_Z 4294967296) = bit_flags 34 4294967296.
+Proof. repeat split; vm_compute; reflexivity. Qed.
